@@ -476,6 +476,7 @@ func (l *listener) ServeHTTP(w http.ResponseWriter, r *http.Request) {
 	if err != nil {
 		return
 	}
+	verifUpgraded(ws)
 	l.handler(ws, r)
 }
 
